@@ -7,17 +7,17 @@ ENGINES = {
 
 PROP = {
     "engines": ["crash"],
-    "lean_modules": ["AxVerif.Model.Durable", "AxVerif.Model.Recovery", "AxVerif.Lemmas.Recovery", "AxVerif.Lemmas.RecoveryR1"],
-    "rule": 'one case = one workload (DDL, autocommit INSERT/UPDATE/DELETE, batches, committed / rolled-back / still-open sessions, failing statements, checkpoints, VACUUM, DROP TABLE; cache 10000 or 48) executed once under the I/O tap; every prefix of the mutation stream after which the file image differs is a crash point (at most 90 per case, those adjacent to fsync/truncate/call/return always kept); each image is opened, read back, closed, reopened, probed. Families: 40% clean region, 10% each open_txn, rb_update, no_init_ckpt, drop_table, vacuum, small_cache. Non-trivial = every workload (each has >= 4 units and >= 10 crash points); distinct = distinct case line.',
-    "assumptions": ['crash model: a crash preserves exactly a prefix of the issued write/truncate calls, each atomic (no reordering, no torn single write); fsync is not needed for a write to survive', 'workloads are stepped from one thread; units touch disjoint rows, so log-order redo and commit-order application coincide', 'tables have the shape (id BIGINT, v INT); DDL = CREATE/DROP TABLE; crash points before Database::create has returned are not explored', 'physical tearing of a B+tree across a partial set of page writes is only observed through the contents/probe, not modelled'],
-    "partial": 'Partial: crash points *inside* recovery (depth-2 nesting) are not enumerated yet; the non-atomic checkpoint is a listed finding (tornCheckpoint_witness).',
+    "lean_modules": ["AxVerif.Model.Durable", "AxVerif.Model.Recovery", "AxVerif.Model.Journal", "AxVerif.Lemmas.Recovery", "AxVerif.Lemmas.RecoveryR1", "AxVerif.Lemmas.Journal"],
+    "rule": 'one case = one workload (DDL, autocommit INSERT/UPDATE/DELETE, batches, committed / rolled-back / still-open sessions, failing statements, checkpoints, VACUUM, DROP TABLE; cache 10000, or 8-16 frames with wide rows so that dirty pages are evicted between checkpoints) executed once under the I/O tap; every prefix of the mutation stream after which the file image differs is a crash point (at most 90 per case, those adjacent to fsync/truncate/call/return always kept); each image is opened, read back, closed, reopened, probed; for C08 up to 8 crash points per case are nested (the recovery of the image is itself run under the tap and crashed at every mutation); up to 45 points per case are also observed under the second crash model (of every file only what was written before its last fsync survives). Families: 40% clean region, 10% each open_txn, rb_update, no_init_ckpt, drop_table, vacuum, 5% steal, 5% big_log. Non-trivial = every workload (each has >= 4 units and >= 10 crash points); distinct = distinct case line.',
+    "assumptions": ['crash model A: a crash preserves exactly a prefix of the issued write/truncate calls, each atomic (no reordering, no torn single write); crash model B (observed, not part of the journal theorem): of every file only what had been written before its last fsync survives', 'workloads are stepped from one thread; units touch disjoint rows, so log-order redo and commit-order application coincide', 'tables have the shape (id BIGINT, v INT) or (id BIGINT, v INT, pad TEXT); DDL = CREATE/DROP TABLE; crash points before Database::create has returned are not explored', 'page contents are abstract in the journal model (Model/Journal.lean): the B+tree structure inside the pages is observed through contents and probe only'],
+    "partial": 'Partial: the page-level journal theorem (restore_returns_checkpoint) is proved for crash model A (every write survives); under crash model B the judge only compares contents. Nested crash points go one level deep (a crash inside the recovery of a crash image).',
     "trusted": ['I/O tap in DBFile (feature verif): every create/write/set_len/sync/remove is reported in issue order', 'image rebuilder of the harness (applies the first k events to in-memory files and writes them to a scratch directory)'],
 }
 
 TEXT = {
-    "text": 'Theorems (Lean, unbounded): recovery is a total function of stable image and durable log; interrupted recovery changes nothing; reopening a recovered or cleanly closed database is the identity; after any number of recoveries and open/close cycles the contents are the redo of the durable history (contents_after_any_number_of_recoveries). Tie: at every explored crash point Database::open must succeed, a clean close + second open must show the same contents, and a probe CREATE/INSERT/SELECT must work.',
+    "text": 'Theorems (Lean, unbounded): recovery is a total function of stable image and durable log; interrupted recovery changes nothing; reopening a recovered or cleanly closed database is the identity; after any number of recoveries and open/close cycles the contents are the redo of the durable history (contents_after_any_number_of_recoveries). Page level: every I/O trace accepted by the journal rule, cut anywhere, is restored to the file of the last checkpoint (restore_returns_checkpoint); with that, a crash at any point - pages evicted in place, inside a checkpoint, between its completion mark, the log truncation and the journal restart - recovers the redo of the durable history (journaled_checkpoint_safe_at_every_point). Tie: at every explored crash point Database::open must succeed, a clean close + second open must show the same contents, and a probe CREATE/INSERT/SELECT must work; the journal rule is checked on the real I/O trace of every workload.',
     "design_ref": "DESIGN.md §5 C01/C02/C08",
     "note": "Trusted: Lean kernel + propext/Quot.sound/Classical.choice; the protocol model is hand-written (validated by the judge on real crash images, not verified against the Rust); "
-            "crash model = prefix of atomic writes; " + 'Partial: crash points *inside* recovery (depth-2 nesting) are not enumerated yet; the non-atomic checkpoint is a listed finding (tornCheckpoint_witness).',
+            "crash model A = prefix of atomic writes (B observed only); " + PROP["partial"],
     "technique": "Lean 4 invariant proof over a WAL protocol machine + verified judge over real crash images (I/O tap)",
 }
